@@ -4,7 +4,8 @@
    T = members of the matrix's taxon namespace in namespace order; lower/suffix/locus = str.lower,
    "%s_%03d" % (l, i), "locus%03d" % i on label ids. *)
 From Coq Require Import ZArith List Bool.
-From DV Require Import Model.PyPrims Model.C19Model.
+From DV Require Import Model.PyPrims Model.C19Model Model.C19RowHeap.
+From DV Require Import Proofs.C19RowHeapSep Proofs.C19RowHeapFrame.
 From DV Require Import Proofs.C19Alist Proofs.C19Rows Proofs.C19Cols Proofs.C19Concat Proofs.C19Proofs
                        Proofs.C19Slice Proofs.C19Step Proofs.C19Examples.
 Import ListNotations.
@@ -358,3 +359,82 @@ Theorem all_operations_terminate :
   snd (step lower suffix locus w o) <> OErr Hang.
 Proof. exact step_terminates. Qed.
 Print Assumptions all_operations_terminate.
+
+(* ---------------------------------------------------------------------------------------------
+   OBJECT level (Model/C19RowHeap.v): rows are mutable objects in a store, a matrix maps a taxon to a
+   row id; alloc = a constructor call, the in-place operations (extend, fill's padding, export's column
+   deletion, m[k].append / extend / [i] = v / del [i]) rewrite the cells of an id.
+   all_ids w = the row ids held by all matrices of the world, matrix by matrix, in map order. *)
+
+(* Separation: in every state reachable from matrices built by the constructors (every row a fresh
+   object) by ANY history of the operations the property names - concatenate (also from streams /
+   paths), export_character_indices / _subset, fill, fill_taxa, pack, add_ / replace_ / update_ /
+   extend_sequences, extend_matrix, remove_ / discard_ / keep_sequences, new_sequence, __getitem__,
+   __setitem__ with a list of values, new_character_subset - and of the four in-place row operations
+   m[k].append / .extend / [i] = v / del [i]  (`copying o = true`: every constructor of `oop` except
+   OSetItemRow, OCopy) no row object is held by two taxa or by two matrices. *)
+Theorem no_row_object_shared :
+  forall (lower : lbl -> lbl) (suffix : lbl -> Z -> lbl) (locus : Z -> lbl)
+         (nss : list (nsid * list tid)) (generic : bool) (ms : list (mid * matrix)) (ops : list oop),
+  forallb copying ops = true ->
+  NoDup (all_ids (o_run lower suffix locus (o_init nss generic ms) ops)).
+Proof. exact no_sharing_reachable. Qed.
+Print Assumptions no_row_object_shared.
+
+(* the invariant behind it, for an arbitrary separated state: no id twice, every held id allocated *)
+Theorem separation_preserved :
+  forall (lower : lbl -> lbl) (suffix : lbl -> Z -> lbl) (locus : Z -> lbl) (w : oworld) (o : oop),
+  copying o = true ->
+  (NoDup (all_ids w) /\ forall r, In r (all_ids w) -> r < s_next (ow_store w)) ->
+  let w' := fst (o_step lower suffix locus w o) in
+  NoDup (all_ids w') /\ forall r, In r (all_ids w') -> r < s_next (ow_store w').
+Proof. exact o_step_sep. Qed.
+Print Assumptions separation_preserved.
+
+(* ... and exactly the two remaining operations DO share (the library as it is: __setitem__ keeps a row
+   object of the matrix's own sequence type, __copy__ stores the source's row objects):
+   from a constructor-built world one such step puts an id under two slots *)
+Theorem no_row_object_shared_refuted_by_setitem_row :
+  (NoDup (all_ids ex_ow) /\ forall r, In r (all_ids ex_ow) -> r < s_next (ow_store ex_ow)) /\
+  ~ NoDup (all_ids (fst (o_step (fun x => x) (fun l _ => l) (fun i => i) ex_ow (OSetItemRow 1 (KTax 1) 0 0)))).
+Proof. exact sharing_by_setitem_row. Qed.
+Print Assumptions no_row_object_shared_refuted_by_setitem_row.
+
+Theorem no_row_object_shared_refuted_by_copy :
+  (NoDup (all_ids ex_ow) /\ forall r, In r (all_ids ex_ow) -> r < s_next (ow_store ex_ow)) /\
+  ~ NoDup (all_ids (fst (o_step (fun x => x) (fun l _ => l) (fun i => i) ex_ow (OCopy 0)))).
+Proof. exact sharing_by_copy. Qed.
+Print Assumptions no_row_object_shared_refuted_by_copy.
+
+(* Under separation every operation changes exactly the rows it names, at OBJECT level: a matrix j that
+   is not the receiver - argument matrices included - keeps its taxon -> row-object map (same ids) AND
+   the cells of every row object it holds; so a later in-place operation on the receiver's rows (or on
+   rows the operation created) cannot reach it either: the statement holds again after that step. *)
+Theorem arguments_unchanged_object_level :
+  forall (lower : lbl -> lbl) (suffix : lbl -> Z -> lbl) (locus : Z -> lbl)
+         (w : oworld) (o : oop) (j : mid) (mj : omatrix),
+  copying o = true ->
+  (NoDup (all_ids w) /\ forall r, In r (all_ids w) -> r < s_next (ow_store w)) ->
+  aget j (ow_ms w) = Some mj -> oreceiver o <> Some j ->
+  let w' := fst (o_step lower suffix locus w o) in
+  aget j (ow_ms w') = Some mj /\
+  deref (ow_store w') (om_rows mj) = deref (ow_store w) (om_rows mj).
+Proof. exact o_step_keeps. Qed.
+Print Assumptions arguments_unchanged_object_level.
+
+(* an in-place operation on the row m[k] names ONE row: every other row of m keeps its object and cells *)
+Theorem inplace_row_operation_names_one_row :
+  forall (w : oworld) (m : mid) (k : key) (f : rowop) (mm : omatrix) (t t' : tid) (r' : rid),
+  (NoDup (all_ids w) /\ forall r, In r (all_ids w) -> r < s_next (ow_store w)) ->
+  aget m (ow_ms w) = Some mm -> resolve_key (otaxa_of w (om_ns mm)) k = Ok t -> t' <> t ->
+  aget t' (om_rows mm) = Some r' ->
+  exists mm', aget m (ow_ms (fst (o_rowop w m k f))) = Some mm' /\ aget t' (om_rows mm') = Some r' /\
+              hget (ow_store (fst (o_rowop w m k f))) r' = hget (ow_store w) r'.
+Proof. exact rowop_names_one_row. Qed.
+Print Assumptions inplace_row_operation_names_one_row.
+
+(* NOT PROVED (time): `object_level_refines_value_level` - under separation,
+     abs_w (fst (o_step w (OBase b))) = fst (step (abs_w w) b)  and the results agree,
+   which would transfer every theorem above from rows-as-values to row objects.  The correspondence run
+   checks exactly this equation on every history (ocase_ok compares abs_w of the object-level model with the
+   implementation step by step, and case_ok the value model, on the same observations). *)
